@@ -39,6 +39,10 @@ func (m *Map) Find(id uint64) (schema.Node, error) {
 	if err != nil {
 		return schema.Node{}, err
 	}
+	// The nodes stay cached for the lifetime of the map and are read again
+	// on every lookup.  The schema comes from the program's own registry,
+	// so do not let the reads add up against the default traversal limit.
+	msg.TraverseLimit = 1<<63 - 1
 	req, err := schema.ReadRootCodeGeneratorRequest(msg)
 	if err != nil {
 		return schema.Node{}, err
